@@ -272,6 +272,79 @@ class Cubic1(AnalyticModel):
         return [(self.T1(), "fold", 0)]
 
 
+class Spectator(AnalyticModel):
+    """base model + one extra field b (appended last) that sits at b = 0 in every phase:
+    V = V_base(a) + 1/2 (m2 + c T^2) b^2 + 1/4 kappa |a|^2 b^2 + 1/4 lb b^4, all parameters positive. The phases, pressures
+    and spinodals are those of the base model; the extra field only tests code that reduces over fields (C08: a relabelling
+    can put the field that does NOT change between the phases first)."""
+
+    def __init__(self, base: AnalyticModel, m2, c, kappa, lb):
+        self.b, self.nf = base, base.nf + 1
+        self.m2, self.c, self.kappa, self.lb = m2, c, kappa, lb
+        self.name = f"{base.name}+spectator(m2={m2:g},c={c:g},kappa={kappa:g},lb={lb:g})"
+
+    def _split(self, phi):
+        phi = np.asarray(phi, float)
+        return phi[..., :-1], phi[..., -1]
+
+    def _mb2(self, a, T):
+        return self.m2 + self.c * np.asarray(T, float) ** 2 + 0.5 * self.kappa * np.sum(a * a, axis=-1)
+
+    def V(self, phi, T):
+        a, b = self._split(phi)
+        return self.b.V(a, T) + 0.5 * self._mb2(a, T) * b**2 + 0.25 * self.lb * b**4
+
+    def dVdT(self, phi, T):
+        a, b = self._split(phi)
+        return self.b.dVdT(a, T) + self.c * np.asarray(T, float) * b**2
+
+    def d2VdT2(self, phi, T):
+        a, b = self._split(phi)
+        return self.b.d2VdT2(a, T) + self.c * b**2
+
+    def grad(self, phi, T):
+        a, b = self._split(phi)
+        ga = self.b.grad(a, T) + 0.5 * self.kappa * a * (b**2)[..., None]
+        gb = self._mb2(a, T) * b + self.lb * b**3
+        ga, gb = np.broadcast_arrays(ga, gb[..., None])
+        return np.concatenate([ga, gb[..., :1]], axis=-1)
+
+    def dgraddT(self, phi, T):
+        a, b = self._split(phi)
+        da = self.b.dgraddT(a, T)
+        db = 2 * self.c * np.asarray(T, float) * b
+        da, db = np.broadcast_arrays(da, db[..., None])
+        return np.concatenate([da, db[..., :1]], axis=-1)
+
+    def hess(self, phi, T):
+        a, b = self._split(phi)
+        Hb = self.b.hess(a, T)
+        n = self.b.nf
+        shape = np.broadcast_shapes(Hb.shape[:-2], b.shape)
+        H = np.zeros(shape + (n + 1, n + 1))
+        H[..., :n, :n] = Hb + 0.5 * self.kappa * (b**2)[..., None, None] * np.eye(n)
+        H[..., :n, n] = self.kappa * a * b[..., None]
+        H[..., n, :n] = H[..., :n, n]
+        H[..., n, n] = self._mb2(a, T) + 3 * self.lb * b**2
+        return H
+
+    def phase_names(self):
+        return self.b.phase_names()
+
+    def phase(self, name, T):
+        loc = self.b.phase(name, T)
+        return None if loc is None else np.concatenate([loc, [0.0]])
+
+    def spinodals(self, name):
+        return self.b.spinodals(name)
+
+    def field_scale(self):
+        return self.b.field_scale()
+
+    def temperature_scale(self):
+        return self.b.temperature_scale()
+
+
 class Scaled(AnalyticModel):
     """Same physics in other units: fields and T multiplied by s, V by s^4."""
 
